@@ -18,5 +18,6 @@ var (
 func installGoBuiltins(e types.EnvType) {
 	call.CallOverrideFN(e, "boom!", func() (types.MalType, error) { return nil, ErrBoom })
 	call.CallOverrideFN(e, "pan!", func() (types.MalType, error) { panic(ErrPan) })
+	call.CallOverrideFN(e, "sentinel", func() (types.MalType, error) { return ErrBoom, nil })
 	call.CallOverrideFN(e, "pans!", func() (types.MalType, error) { panic("pans") })
 }
